@@ -71,6 +71,18 @@ func Run(c *ev.Ctx) {
 			}
 			alpha = append(alpha, op)
 		}
+		if ph.Name == "catalog-kv-session" {
+			// instances that change which results a name returns without the name's own last instance leaving:
+			// re-registration of an instance ID under another service name; a connect-native sibling; the
+			// proxies of a destination going away while the native instance stays
+			alpha = append(alpha,
+				cmdlib.RegService(cmdlib.FN1, cmdlib.SvcSpec{ID: "web", Name: "api", Port: 80}),
+				cmdlib.RegService(cmdlib.FN2, cmdlib.SvcSpec{ID: "web-2", Name: "api", Port: 80}),
+				cmdlib.RegService(cmdlib.FN2, cmdlib.SvcSpec{ID: "web-native", Name: "web", Native: true, Port: 81}),
+				cmdlib.DeregService("n1", "web-proxy-1", ""),
+				cmdlib.RegService(cmdlib.FN1, cmdlib.SvcSpec{ID: "web-proxy-1", Name: "web-proxy", Kind: structs.ServiceKindConnectProxy, DestName: "db", Port: 21000}), // the proxy is re-pointed
+			)
+		}
 		var seeds [][]world.Op
 		for _, s := range ph.Seeds {
 			seeds = append(seeds, seedsAll[s])
